@@ -422,8 +422,56 @@ class Inliner:
         return True
 
 
+def positionalise(repo):
+    """Calls of methods of the same object (`self.m(..)`, `super().m(..)`)
+    that pass arguments by keyword are rewritten to the positional form the
+    callee's signature defines, as far as the keywords cover a prefix of
+    the parameters (exact; rules then see one calling convention)."""
+    n_changed = 0
+    for cname, c in repo.classes.items():
+        for mname, fn in c.methods.items():
+            for call in ast.walk(fn):
+                if not (isinstance(call, ast.Call) and call.keywords
+                        and isinstance(call.func, ast.Attribute)):
+                    continue
+                recv = call.func.value
+                d = None
+                if isinstance(recv, ast.Name) and recv.id == 'self':
+                    _, d = repo.resolve(cname, call.func.attr)
+                elif isinstance(recv, ast.Call) and isinstance(
+                        recv.func, ast.Name) and recv.func.id == 'super':
+                    _, d = repo.resolve(cname, call.func.attr, after=cname)
+                if d is None or d.args.vararg or d.args.posonlyargs:
+                    continue
+                if any(k.arg is None for k in call.keywords) or any(
+                        isinstance(a, ast.Starred) for a in call.args):
+                    continue
+                params = [a.arg for a in d.args.args]
+                static = any(ast.unparse(x) == 'staticmethod'
+                             for x in d.decorator_list)
+                if not static and params:
+                    params = params[1:]
+                kw = {k.arg: k for k in call.keywords}
+                pos = list(call.args)
+                moved = False
+                while len(pos) < len(params) and params[len(pos)] in kw:
+                    k = kw.pop(params[len(pos)])
+                    pos.append(k.value)
+                    moved = True
+                if moved:
+                    call.args = pos
+                    call.keywords = [k for k in call.keywords
+                                     if k.arg in kw]
+                    n_changed += 1
+    return n_changed
+
+
 def normalise(repo):
     """Inline unknown private helpers in every method (in place)."""
+    try:
+        positionalise(repo)
+    except Exception:
+        pass
     try:
         known = load_baseline()
     except OSError:
